@@ -724,7 +724,7 @@ func c01ZA(c *Ctx) {
 	ok := len(seq) == len(want)
 	bad := ""
 	for i := 0; ok && i < len(want); i++ {
-		if seq[i] == want[i] {
+		if seq[i] == want[i] || (i < 2 && normEntl(seq[i]) == normEntl(want[i])) {
 			continue
 		}
 		m := false
@@ -1212,3 +1212,19 @@ func putUintBuffer(arg ssa.Value) (ssa.Value, int, bool) {
 	}
 	return put.Call.Args[2], n, true
 }
+
+// normEntl: spelling variants of one byte of the 16-bit bit count that denote the same value for every input: a shift
+// by 3 for a multiplication by 8; masks and 16-bit truncations that the final truncation to 8 bits makes redundant
+// (byte(v>>8) is bits 8..15 of v whether or not v was first cut to 16 bits, byte(v&0xff) is byte(v)).
+func normEntl(s string) string {
+	for i := 0; i < 4; i++ {
+		s = reShl3.ReplaceAllString(s, "mul(0x8,$1)")
+		s = strings.ReplaceAll(s, "trunc8(and(0xff,", "trunc8((")
+		s = strings.ReplaceAll(s, "shr(trunc16(", "shr((")
+		s = strings.ReplaceAll(s, "trunc8(trunc16(", "trunc8((")
+		s = strings.ReplaceAll(s, "trunc8((trunc16(", "trunc8(((")
+	}
+	return strings.NewReplacer("(", "", ")", "").Replace(s)
+}
+
+var reShl3 = regexp.MustCompile(`shl\(([^()]*(?:\([^()]*\))?[^()]*),0x3\)`)
